@@ -61,6 +61,12 @@ FreshValue(n) == "B" \o n
 Canon(v) == IF v = "Z0~" THEN "Z0" ELSE IF v = "Z1~" THEN "Z1" ELSE v
 SameBlock(a, b) == Canon(a) = Canon(b)
 Valid(v) == Canon(v) \notin InvalidValues
+\* cs.proposalBlockIs(blockID): the proposal block hashes to the BlockID's hash AND was assembled from the part set the
+\* BlockID names.  (Invariant of the record: propBlock # Nil => propBlock is the name of the part set it came from.)
+\* Before fix c64c7a4 only the hash was compared (Weak switch BlockMatchedByHashOnly): a node holding another encoding of the
+\* voted block kept it while replacing its part set by an empty one for the voted header, locked on that pair and crashed in
+\* finalizeCommit/SaveBlock ("BlockStore can only save complete block part sets").
+PropIs(s, v) == s.propBlock # Nil /\ (IF W("BlockMatchedByHashOnly") THEN SameBlock(s.propBlock, v) ELSE s.propBlock = v /\ s.partsHdr = v)
 
 \* ------------------------------------------------------------------ vote sets (types/vote_set.go)
 \* votes : the primary vote per validator (VoteSet.votes)            -- what is gossiped / put in a commit
@@ -141,10 +147,12 @@ ProposalComplete(s) ==
 TryFinalizeCommit(s) ==
   LET maj == Maj23(s.pc[s.commitR]) IN
   IF maj = None \/ maj = Nil THEN s
-  ELSE IF s.propBlock = Nil \/ ~SameBlock(s.propBlock, maj) THEN s
+  ELSE IF ~PropIs(s, maj) THEN s
   \* finalizeCommit: "expected ProposalBlockParts header to be commit header" — the block is stored under the header of
   \* the part set it was assembled from, which must be the one the precommits are for
   ELSE IF s.partsHdr # maj /\ ~W("CommitIgnoresPartsHeader") THEN Panic(s, "parts header differs from commit header")
+  \* SaveBlock: "BlockStore can only save complete block part sets" (the part set is complete iff the block came from it)
+  ELSE IF s.propBlock # s.partsHdr /\ ~W("CommitIgnoresPartsHeader") THEN Panic(s, "incomplete part set at commit")
   ELSE IF ~Valid(maj) /\ ~W("CommitSkipsValidate") THEN Panic(s, "committed an invalid block")
   ELSE \* SaveBlock, WAL end-height, ApplyBlock, updateToState (height+1, round 0, NewHeight), scheduleRound0
        Sched([s EXCEPT !.decision = s.partsHdr, !.lastCommit = [r |-> s.commitR, votes |-> s.pc[s.commitR].votes], !.height = 2, !.round = 0, !.step = StNewHeight,
@@ -162,7 +170,7 @@ EnterCommit(s, cr) ==
   IF maj = None THEN Panic(s, "enterCommit without +2/3 precommits") ELSE
   LET s1 == IF s.lockedV # Nil /\ SameBlock(s.lockedV, maj)
             THEN [s EXCEPT !.propBlock = s.lockedV, !.partsHdr = s.lockedV] ELSE s
-      s2 == IF (s1.propBlock = Nil \/ ~SameBlock(s1.propBlock, maj)) /\ s1.partsHdr # maj
+      s2 == IF ~PropIs(s1, maj) /\ s1.partsHdr # maj
             THEN [s1 EXCEPT !.propBlock = Nil, !.partsHdr = maj] ELSE s1
       s3 == [s2 EXCEPT !.step = StCommit, !.commitR = cr]
   IN TryFinalizeCommit(s3)
@@ -184,7 +192,7 @@ EnterPrecommit(s, r) ==
         ELSE fin(s, Nil)
      ELSE IF maj = Nil THEN fin(Unlock(s), Nil)
      ELSE IF s.lockedV # Nil /\ SameBlock(s.lockedV, maj) THEN fin(IF W("RelockKeepsRound") THEN s ELSE [s EXCEPT !.lockedR = r], maj)
-     ELSE IF s.propBlock # Nil /\ SameBlock(s.propBlock, maj) THEN
+     ELSE IF PropIs(s, maj) THEN
         IF ~Valid(maj) THEN Panic(s, "+2/3 prevoted for an invalid block")
         ELSE fin([s EXCEPT !.lockedR = r, !.lockedV = s.propBlock], maj)      \* LockedBlock(Parts) = ProposalBlock(Parts); the precommit is for the polka's BlockID
      ELSE IF W("PrecommitUnheldBlock") THEN fin([s EXCEPT !.lockedR = r, !.lockedV = maj], maj)
@@ -249,7 +257,7 @@ HandleProposal(s, src, p) ==
 HandleCompleteProposal(s) ==
   LET maj == Maj23(s.pv[s.round])
       has == maj # None
-      s1  == IF has /\ maj # Nil /\ s.validR < s.round /\ s.propBlock # Nil /\ SameBlock(s.propBlock, maj)
+      s1  == IF has /\ maj # Nil /\ s.validR < s.round /\ PropIs(s, maj)
              THEN [s EXCEPT !.validR = s.round, !.validV = s.propBlock] ELSE s
   IN IF s1.step <= StPropose /\ ProposalComplete(s1)
      THEN LET a == EnterPrevote(s1, s1.round) IN IF has THEN EnterPrecommit(a, a.round) ELSE a
@@ -287,7 +295,7 @@ AfterPrevote(me, s, vr) ==
                         /\ vr <= s.round /\ ~SameBlock(s.lockedV, maj)
                      THEN Unlock(s) ELSE s
             IN IF maj # Nil /\ u.validR < vr /\ vr = u.round
-               THEN LET w == IF u.propBlock # Nil /\ SameBlock(u.propBlock, maj) THEN [u EXCEPT !.validR = vr, !.validV = u.propBlock]
+               THEN LET w == IF PropIs(u, maj) THEN [u EXCEPT !.validR = vr, !.validV = u.propBlock]
                                            ELSE [u EXCEPT !.propBlock = Nil]
                     IN IF w.partsHdr # maj THEN [w EXCEPT !.partsHdr = maj] ELSE w
                ELSE u
